@@ -496,15 +496,23 @@ func generateUnobstructed(r *rand.Rand) *Scenario {
 	}
 	if reclaim {
 		sc.Class = "unobs-reclaim"
-		// queue A: quota qa < what it runs (over quota); queue B: quota >= 1, runs nothing or within quota
-		over := total // A holds the whole cluster
-		qa := r.Intn(over)   // 0..over-1 GPUs deserved: A is above its quota
-		qb := 1 + r.Intn(2)  // B deserves 1..2 GPUs, holds 0
-		if qa+qb > total {
-			qa = total - qb
-			if qa < 0 {
-				qa = 0
-			}
+		// queue A holds the whole cluster and is above its quota by at least K; queue B deserves at least K,
+		// holds nothing and has K identical pending jobs (K = 1..3): each of them is entitled to reclaim
+		kc := pick(1, 1, 2, 3)
+		if kc > total {
+			kc = total
+		}
+		qb := kc + r.Intn(2)
+		if qb > total {
+			qb = total
+		}
+		maxQa := total - qb
+		if total-kc < maxQa {
+			maxQa = total - kc
+		}
+		qa := 0
+		if maxQa > 0 {
+			qa = r.Intn(maxQa + 1)
 		}
 		sc.Queues = append(sc.Queues, Queue{Name: "qa", Parent: 1, Prio: 100, GQ: qa * 1000, GL: -1, GW: 1, CQ: -1, CL: -1, MQ: -1, ML: -1})
 		sc.Queues = append(sc.Queues, Queue{Name: "qb", Parent: parentB, Prio: 100, GQ: qb * 1000, GL: -1, GW: 1, CQ: -1, CL: -1, MQ: -1, ML: -1})
@@ -517,13 +525,16 @@ func generateUnobstructed(r *rand.Rand) *Scenario {
 				sc.Pods = append(sc.Pods, Pod{Name: fmt.Sprintf("j%d-p1", k), Job: k, Cpu: 500, Mem: 500, Gpu: 1, Phase: "R", Node: n + 1})
 			}
 		}
-		k++
-		sc.Jobs = append(sc.Jobs, Job{Name: fmt.Sprintf("j%d", k), Queue: qbIdx, Prio: pick(50, 75), Preempt: pick(0, 1), Min: 1, Age: 600, LastStart: -1})
-		sc.Pods = append(sc.Pods, Pod{Name: fmt.Sprintf("j%d-p1", k), Job: k, Cpu: 500, Mem: 500, Gpu: 1, Phase: "P"})
+		prio, pre := pick(50, 75), pick(0, 1)
+		for c := 0; c < kc; c++ {
+			k++
+			sc.Jobs = append(sc.Jobs, Job{Name: fmt.Sprintf("j%d", k), Queue: qbIdx, Prio: prio, Preempt: pre, Min: 1, Age: 600 + 60*c, LastStart: -1})
+			sc.Pods = append(sc.Pods, Pod{Name: fmt.Sprintf("j%d-p1", k), Job: k, Cpu: 500, Mem: 500, Gpu: 1, Phase: "P"})
+		}
 	} else {
 		sc.Class = "unobs-preempt"
 		// one queue holding the whole cluster with preemptible low-priority jobs; quota = 0 so that the
-		// pending job (same queue, higher priority) cannot reclaim and must preempt
+		// K identical pending jobs (same queue, higher priority) cannot reclaim and must preempt
 		sc.Queues = append(sc.Queues, Queue{Name: "qa", Parent: 1, Prio: 100, GQ: 0, GL: -1, GW: 1, CQ: -1, CL: -1, MQ: -1, ML: -1})
 		qaIdx := len(sc.Queues)
 		k := 0
@@ -534,9 +545,15 @@ func generateUnobstructed(r *rand.Rand) *Scenario {
 				sc.Pods = append(sc.Pods, Pod{Name: fmt.Sprintf("j%d-p1", k), Job: k, Cpu: 500, Mem: 500, Gpu: 1, Phase: "R", Node: n + 1})
 			}
 		}
-		k++
-		sc.Jobs = append(sc.Jobs, Job{Name: fmt.Sprintf("j%d", k), Queue: qaIdx, Prio: 75, Preempt: 1, Min: 1, Age: 600, LastStart: -1})
-		sc.Pods = append(sc.Pods, Pod{Name: fmt.Sprintf("j%d-p1", k), Job: k, Cpu: 500, Mem: 500, Gpu: 1, Phase: "P"})
+		kc := pick(1, 1, 2, 3)
+		if kc > total {
+			kc = total
+		}
+		for c := 0; c < kc; c++ {
+			k++
+			sc.Jobs = append(sc.Jobs, Job{Name: fmt.Sprintf("j%d", k), Queue: qaIdx, Prio: 75, Preempt: 1, Min: 1, Age: 600 + 60*c, LastStart: -1})
+			sc.Pods = append(sc.Pods, Pod{Name: fmt.Sprintf("j%d-p1", k), Job: k, Cpu: 500, Mem: 500, Gpu: 1, Phase: "P"})
+		}
 	}
 	sc.Normalize()
 	return sc
